@@ -1,6 +1,9 @@
 package cfdi
 
 import (
+	"errors"
+	"strconv"
+
 	"github.com/invopop/gobl/cal"
 	"github.com/invopop/gobl/cbc"
 	"github.com/invopop/gobl/num"
@@ -176,6 +179,14 @@ func isValidLineTotal(line *FuelAccountLine) validation.Rule {
 	return validation.In(expected).Error("must be quantity x unit_price")
 }
 
+// nullRowError reports a null entry in one of the complement's lists, which
+// cannot be calculated.
+func nullRowError(field string, i int) error {
+	return validation.Errors{
+		field: validation.Errors{strconv.Itoa(i): errors.New("must not be null")},
+	}
+}
+
 // Calculate performs the complement's calculations and normalisations.
 func (fab *FuelAccountBalance) Calculate() error {
 	// Subtotal an tax total need to be calculated using the expected
@@ -185,6 +196,9 @@ func (fab *FuelAccountBalance) Calculate() error {
 	fab.Subtotal = num.MakeAmount(0, FuelAccountTotalsPrecision)
 
 	for i, l := range fab.Lines {
+		if l == nil {
+			return nullRowError("lines", i)
+		}
 		l.Index = i + 1
 		// Normalise amounts to the expected precision
 		l.Quantity = l.Quantity.RescaleUp(FuelAccountPriceMinimumPrecision)
@@ -193,7 +207,12 @@ func (fab *FuelAccountBalance) Calculate() error {
 			l.Total = l.Item.Price.Multiply(l.Quantity)
 		}
 
-		for _, t := range l.Taxes {
+		for j, t := range l.Taxes {
+			if t == nil {
+				return validation.Errors{
+					"lines": validation.Errors{strconv.Itoa(i): nullRowError("taxes", j)},
+				}
+			}
 			// Always calculate totals for each tax
 			if t.Percent != nil {
 				t.Amount = t.Percent.Of(l.Total)
